@@ -10,7 +10,8 @@ CATS = {
 
 def run_common(ctx, prop, modules, l1_scripts, stride, nops):
     if getattr(ctx, "replay", None):
-        return ctx.replay_script(ctx.replay)
+        from .. import absreplay
+        return absreplay.replay(ctx, ctx.replay)      # re-judged by `sfmodel abs` when the file carries its geometry header
     failed = ctx.lean_stage(modules)
     quick = ctx.tier == "quick"
     found_input = False
@@ -56,9 +57,9 @@ def run_common(ctx, prop, modules, l1_scripts, stride, nops):
         sl = f.script.strip().split("\n")
         obs = ""
         ctx.violation("%s-%s-%s" % (prop.lower(), key[0], f.cat),
-                      "# %s violated on the implementation's own transcript (%s)\n# file/format: %s, %d channel(s)\n# at script line %d: %s\n# %s\n--- script\n%s"
+                      "# %s violated on the implementation's own transcript (%s)\n# file/format: %s, %d channel(s)\n# at script line %d: %s\n# %s\n%s"
                       % (prop, f.kind, f.fmt.name if f.fmt else f.name, f.ch, f.line, sl[f.line][:120] if f.line < len(sl) else "", f.text,
-                         HC.script_prefix(f.script, f.line)))
+                         getattr(f, "replay_text", None) or ("--- script\n" + HC.script_prefix(f.script, f.line))))
     if corr and not found_input:
         f = corr[0]
         sl = f.script.strip().split("\n")
